@@ -4,6 +4,7 @@
 import StathamModel.Py.Repr
 import StathamModel.Py.Eval
 import StathamModel.Lemmas.EvalLeaf
+import StathamModel.Lemmas.EvalTree
 import StathamModel.Tie
 namespace Statham.C18
 open Statham
@@ -98,6 +99,52 @@ theorem C18_round_trip_element_leaf (d c : Option JVal) (e : Option (List JVal))
       some (Elem.leaf .element (leafKw d c e tuple addI mnI mxI uniq a b x y m f p mnL mxL req hp hpp addP mnP mxP hd ds)) := by
   simp only [Elem.leaf, reprExpr, reprCore, reprList, reprOpt, reprKeyed, evalLeaf, leafClassOf]
   rw [kwargs_element]
+
+/-! ### the repr of a whole element tree evaluates back to the tree
+
+`WF env e` (Lemmas/EvalTree): every object class of the tree is in the namespace `env` under its printed name, and every
+other node holds exactly what its class's constructor takes, in the form the constructor leaves it in (`NodeOK`: container
+keywords consistent with their flags, bound properties, no keyword of another class).  No bound on depth or width. -/
+
+/-- **C18** for trees: `eval(repr(e), namespace)` rebuilds `e` itself — nested elements, tuple and single `items`, property
+    dictionaries with renamed and required properties, pattern properties, both forms of `dependencies`, compositions and
+    `Not`, object classes looked up by name -/
+theorem C18_round_trip_tree (env : String → Option Elem) (e : Elem) (h : WF env e) :
+    evalElem env (reprExpr e) = some e := by
+  unfold evalElem
+  rw [eval_repr env e h]
+
+/-- a property wrapper evaluates to the wrapper: same element, same `required`, and a `source` that binds to the same JSON name -/
+theorem C18_round_trip_property (env : String → Option Elem) (k : Key) (e : Elem) (h : WF env e) :
+    evalV env (propExpr k (reprExpr e)) =
+      some (.prop k.required (if k.src == k.name then none else some k.src) e) ∧
+    boundSource k.name (if k.src == k.name then none else some k.src) = k.src := by
+  refine ⟨evalV_propExpr env k _ e (eval_repr env e h), ?_⟩
+  by_cases hq : k.src = k.name
+  · simp [hq, boundSource]
+  · have hne : k.src ≠ "" := fun h0 => hq (by rw [h0, Key.src_empty k h0])
+    simp [hq, boundSource, hne]
+
+/-- the hypotheses are met by a tree with nesting, a renamed required property, a tuple, a composition and an object class -/
+def sampleObj : Elem :=
+  .mk (.object "Pet") { hasProps := true } [] none none
+    [({ name := "name", required := true, source := some "name" }, Elem.leaf .string)] [] none none [] []
+def sampleTree : Elem :=
+  .mk .element { hasProps := true, hasPatProps := true, addPropsB := false, itemsKind := .tuple, hasDeps := true } [Elem.leaf .integer { minimum := some (.int 0) }, sampleObj]
+    none (some (Elem.leaf .null)) 
+    [({ name := "class_", required := true, source := some "class" },
+       .mk .array { itemsKind := .single, minItems := some (.int 1) } [sampleObj] none none [] [] none none [] []),
+     ({ name := "x", source := some "x" }, Elem.compose .anyOf [Elem.leaf .string { maxLength := some (.int 3) }, Elem.leaf .null] (some .null))]
+    [({ name := "^a" }, .mk .not {} [] none none [] [] none none [] [Elem.leaf .boolean])] none none
+    [({ name := "a", names := some ["b"] }, Elem.trivial), ({ name := "c" }, Elem.leaf .number)] []
+def sampleEnv : String → Option Elem := fun n => if n = "Pet" then some sampleObj else none
+
+example : WF sampleEnv sampleTree := by
+  simp [WF, WFL, WFO, WFK, sampleTree, sampleObj, sampleEnv, NodeOK, Elem.leaf, Elem.compose, Elem.trivial]
+  refine ⟨?_, ?_, ?_⟩ <;> constructor <;> simp [BoundKey, PatKey, DepOK, Key.src, Elem.trivial, Elem.leaf]
+
+/-- the executable form the driver reports (`namespaceOf` = the tree's own object classes), evaluated in the kernel -/
+example : evalBack sampleTree = true := by decide +kernel
 
 /-! ### evaluated in the kernel -/
 
